@@ -34,7 +34,7 @@ pub fn init() {
 pub fn pool_engine() -> PoolHist {
     PoolHist {
         name: "fuzz-pool-history",
-        mon: Mon { c01: true, c02: true, c03: true, c04: true, c12: true, c16: true, c20: true },
+        mon: Mon { c01: true, c02: true, c03: true, c04: true, c12: true, c16: true, c20: true, c19: true },
         weights: Weights { roundtrip: 0, create: 2, provide: 8, single: 6, withdraw: 6, swap: 9, route: 7, misc: 4, bad: 3 },
         simple_routes: false,
         max_ops_quick: 60,
